@@ -230,7 +230,19 @@ def oracle_step(pid, tier, deep):
         raise
     except BaseException as e:           # noqa - the oracle itself could not cope with what the implementation did
         tb = traceback.format_exc().strip().split("\n")
-        return {"explored": 0, "violations": [], "crashed": f"{type(e).__name__}: {str(e)[:200]} | {' | '.join(tb[-4:])[:400]}",
+        viols = []
+        try:
+            import impl as _impl
+            where = _impl._raised_in_library(e)
+        except Exception:       # noqa
+            where = ""
+        if where:
+            # the LIBRARY's own code raised on an input the oracle generated (all of them are legitimate inputs): a concrete failing
+            # input - the case being run is what the last heartbeat recorded
+            viols.append({"clause": "the implementation raised on an input generated by the oracle", "raised": f"{type(e).__name__}: {str(e)[:300]}",
+                          "raised_at": where, "during": common.HEART.get("what"), "input": common.HEART.get("detail"),
+                          "traceback_tail": tb[-6:]})
+        return {"explored": 0, "violations": viols, "crashed": f"{type(e).__name__}: {str(e)[:200]} | {' | '.join(tb[-4:])[:400]}",
                 "wall_s": round(time.time() - t0, 1)}
     o["wall_s"] = round(time.time() - t0, 1)
     common.set_oracle_cap(None)
@@ -313,6 +325,14 @@ def run_property(pid, tier):
     import common
     common.arm(True)
     mism = corr_step(pid, cfg, res, tier, False)
+    # a generated command (all of them are legitimate inputs) on which the LIBRARY's own code raises while the model returns a value is
+    # a concrete failing input in itself
+    for m in mism:
+        if isinstance(m.impl, str) and m.impl.startswith("impl-error:") and "@iOpt/" in m.impl and not str(m.model).startswith("impl-error"):
+            violations.append({"kind": "the implementation raises on an input for which the model returns a value",
+                               "stream": m.stream, "command": m.line, "case": m.case, "implementation": m.impl, "model": str(m.model)[:300]})
+            if len([v for v in violations if v["kind"].startswith("the implementation raises")]) >= 5:
+                break
     deep = bool(res["broken"]) or bool(res["source_changed"])
     # 4 oracle
     o = oracle_step(pid, tier, deep)
